@@ -36,7 +36,7 @@ RULE = ("Twin runs. Stream S and S' = S with the VALUES (prices, payloads, table
         "event before the end of the episode.")
 ASSUMPTIONS = ["value perturbations only: adding/removing future timestamps legitimately changes `done`"]
 REQUIRED = ["C02:no-lookahead", "C02:next-trades-independent-of-future", "C02:xy-no-lookahead"]
-REQUIRED_CATS = ["xy-features-stamped-intraday", "xy-twin-in-fresh-interpreter", "xy-rate-off-price-dates", "transmitter-used-before-with-larger-latency", "xy-prefitted-transformer", "custom-events-from-table", "xy-sparse-features", "generic", "xy", "xy-nan-straddles-cut", "xy-row-missing-at-cut", "cut:first", "cut:last", "latency>0", "late-fold", "markov", "warmup"]
+REQUIRED_CATS = ["earlier-episode-on-a-later-window", "xy-features-stamped-intraday", "xy-twin-in-fresh-interpreter", "xy-rate-off-price-dates", "transmitter-used-before-with-larger-latency", "xy-prefitted-transformer", "custom-events-from-table", "xy-sparse-features", "generic", "xy", "xy-nan-straddles-cut", "xy-row-missing-at-cut", "cut:first", "cut:last", "latency>0", "late-fold", "markov", "warmup"]
 TECHNIQUE = "runtime monitoring: twin executions on streams that agree up to the cut, compared call by call on canonical digests"
 LEVEL_TEXT = ("Exploration by twin runs: the same real environment is executed on two inputs that agree on everything stamped <= t; any "
               "difference in an output landing at or before t is a witness of look-ahead. Fixed actions prevent a leak from hiding "
@@ -61,7 +61,8 @@ class FA(Feature):
 
 
 def run_generic(spec, pert_after=None, prng=None):
-    grid, evspec, L, d, acts, cs, fold, markov, warm, table, Lfirst = spec
+    grid, evspec, L, d, acts, cs, fold, markov, warm, table, Lfirst = spec[:11]
+    prior = spec[11] if len(spec) > 11 else None
     evs = []
     rows = []
     npert = 0
@@ -80,7 +81,10 @@ def run_generic(spec, pert_after=None, prng=None):
             rows.append((t, {"uid": uid, "v": a, "time": t - timedelta(days=1 + uid % 5)}))
         else:
             evs.append(ep.EvA(t, uid, a))
-    tr = Transmitter(grid, {"training-set": fold}, markov, warm)
+    folds = {"training-set": fold}
+    if prior is not None:
+        folds["later"] = [grid[prior], grid[-1]]
+    tr = Transmitter(grid, folds, markov, warm)
     tr.add_events(evs)
     if rows:
         df = pd.DataFrame([r[1] for r in rows], index=pd.DatetimeIndex([r[0] for r in rows]))
@@ -110,6 +114,17 @@ def run_generic(spec, pert_after=None, prng=None):
                 out.append((x[0], x[1], x[2]))
         return tuple(out)
 
+    if prior is not None:
+        # an EARLIER use of the same environment: an episode over a window that starts later (a test fold evaluated
+        # first), abandoned after a step or two; the episode under test then steps through that window's start
+        try:
+            env.reset("later")
+            for k_ in range(2):
+                if env.step(acts[k_])[2]:
+                    break
+        except Exception:
+            pass
+        del sink.log[:]
     out = []
     o = env.reset()
     out.append((obs_digest(o), None, None, None, float(env.broker.net_liquidation_value(False)).hex(), (), 0, log_digest(0)))
@@ -171,7 +186,11 @@ def generic(ctx):
     if rng.random() < 0.25 and min(gaps) > 40:
         Lfirst = 30
         ctx.cat("transmitter-used-before-with-larger-latency")
-    spec = (grid, ev, L, d, acts, cs, fold, markov, warm, table, Lfirst)
+    prior = None
+    if n - i0 >= 4 and rng.random() < 0.3:
+        prior = rng.randint(i0 + 1, n - 2)
+        ctx.cat("earlier-episode-on-a-later-window")
+    spec = (grid, ev, L, d, acts, cs, fold, markov, warm, table, Lfirst, prior)
     steps = grid[i0:]
     base, _ = run_generic(spec)
     which = rng.choice(["first", "middle", "last"])
